@@ -1,7 +1,9 @@
 SPECIFICATION Spec
 CONSTANTS
+  NamesUsed = {"l2"}
+  InitAuto = TRUE
   TwoPaths = TRUE
-  MaxLen = 14
+  MaxLen = 6
 INVARIANTS
   TypeOK
   Emit
